@@ -58,7 +58,8 @@ def shrink(req):
 def search(ctx):
     """witness candidates after a broken obligation: every variant on a few seeds, and small preprocessor programs that
     define / test / expand one macro under every directive"""
-    out = []
+    # the fifth configuration's define list is read through front-end verdicts: fails when MetalBytecode hides them
+    out = ["C18.defines\tmtlb"]
     variants = ["plain", "state", "pp-guard", "pp-macros", "pp-version", "unbounded", "reserved-matrix", "reserved-cb",
                 "reserved-kernel", "reserved-cb-main", "reserved-double", "entry-texture", "typedef-array", "nonresource", "nonresource-rq",
                 "e-pp-if", "e-parse-mid", "e-type-undef-mid", "e-pipe-entry", "layout-trap", "include", "api-define"]
@@ -97,7 +98,11 @@ SPEC = {
         "simplify_cbuffers_as_modelled", "msl_reflects_simplified_module", "kinds_counts_shared_through_simplify",
         "bindings_shared_through_simplify_partial", "cbuffer_block_one_binding_everywhere",
         "hlsl_target_sites_as_modelled", "hlsl_exports_differ_only_in_annotations", "dx_vk_differ_only_in_annotations",
-        "vk_vkba_differ_only_where_addresses_are", "dx_vk_differ_only_in_annotations_c01", "dx_has_no_vk_annotations"]],
+        "vk_vkba_differ_only_where_addresses_are", "dx_vk_differ_only_in_annotations_c01", "dx_has_no_vk_annotations",
+        "frontEndRunsBeforeAnyTargetSpecificStep", "toolchain_uses_covered", "compile_factors_through_front_end",
+        "front_end_diagnostic_same_for_every_target", "msl_metal_bytecode_same_defines", "front_metal_bytecode_eq_msl",
+        "metal_bytecode_without_toolchain", "msl_verdict", "buildPipeline_metal_bytecode_no_toolchain", "buildPipeline_msl",
+        "valid_for_msl_metal_bytecode_ends_at_toolchain", "rejected_for_msl_metal_bytecode_same_or_toolchain"]],
     "harness": "c18",
     "nontrivial": nontrivial,
     "finding_key": finding_key,
@@ -113,7 +118,11 @@ SPEC = {
             "programs of harness/src/c17/wgen.rs in 12 option combinations (21 resource kinds, typedef'd / unsized / bindless "
             "arrays, cbuffers with 0-5 members, static sampler properties, per-primitive mesh / pixel shapes, bodies calling "
             "methods on every resource kind, inactive RSSL_TARGET_* text, 25 odd edits), none testing RSSL_TARGET_*, each compiled for "
-            "{dx, vk, vk+buffer-address, msl} and compared by an oracle written in the property's words; plus generated "
+            "{dx, vk, vk+buffer-address, msl, metal-bytecode} and compared by an oracle written in the property's words (the fifth "
+            "configuration ends, on a host without the Metal tool chain, in MetalCompilerNotFound after a successful front end "
+            "and export: its front-end verdict and diagnostic must be those of the other four, a file Msl accepts must end in "
+            "exactly the tool chain error, a file Metal's exporter refuses in the same error or - later pipeline - the tool "
+            "chain error; its define list is read back through front-end verdicts of probing files); plus generated "
             "object-like-macro / conditional-directive programs run through the real preprocessor with each target's observed "
             "define list and compared with the Lean macro model (a quarter of them mention RSSL_TARGET_* on purpose); "
             "non-trivial = accepted file with resources and pipelines / preprocessor program with macros that produces output",
@@ -146,6 +155,17 @@ SPEC = {
                   "any module, exports that are equal after erasing annotations for DirectX vs Vulkan (unconditionally) and "
                   "for Vulkan with vs without buffer addresses wherever no address is declared or used; the function generator "
                   "is a parameter that does not see the target (C01's genFunc is cited as the instance). "
+                  "(7) The order of the steps of compile() and of the two arms of build_pipeline() is extracted from the source "
+                  "(compileSteps, buildPrefixSteps, hlslArmSteps, mslArmSteps, stepFacts, toolchainUses) and pinned "
+                  "(`frontEndRunsBeforeAnyTargetSpecificStep`, `toolchain_uses_covered`); Model/CompileSteps.lean interprets the "
+                  "extracted lists with parser, type checker, exporters and the Metal tool chain abstract, and for that order "
+                  "compile() is proved to be argument check -> shared front end -> per-pipeline builds "
+                  "(`compile_factors_through_front_end`), hence a front-end diagnostic is returned unchanged for every admissible "
+                  "target configuration incl. MetalBytecode, with or without a tool chain on the host "
+                  "(`front_end_diagnostic_same_for_every_target`); MetalBytecode without tool chain has the closed form front "
+                  "diagnostic / no pipeline / first pipeline's Metal export error / MetalCompilerNotFound "
+                  "(`metal_bytecode_without_toolchain`), which the model executable uses to predict the fifth verdict of every "
+                  "C18.cross case from the Msl run. Covered mode: all pipelines (no pipeline_name / no_pipeline_mode in the step model). "
                   "Not modelled: function-like macros / ## / "
                   "#include (C12's model; exercised by the harness variants include / pp-macros / ctl-concat).",
     "trusted_base": [
@@ -158,9 +178,14 @@ SPEC = {
         "Model/MacroLite.lean is a hand-written mirror of preprocess.rs for object-like macros and conditionals, tied by the "
         "C18.pp correspondence run; Model/Targets.lean report/hasSlot mirror analyse_bindings + the slot decision of "
         "assign_api_bindings, tied by the C18.cross correspondence run",
+        "tools/gens/c18.py step order: regex marks for the steps of compile() / build_pipeline() sorted by source position, "
+        "brace matching for the match arms and the MetalBytecode guard; Model/CompileSteps.lean says what each step does "
+        "(hand-written, tied by the predicted fifth verdict in C18.cross: front / back / tool per case)",
         "modelling assumption: parse / type_check / check_layout are functions of the token stream only (they take no target "
         "argument: frontShape.frontEndDoesNotNameTarget + frontEndArgReads)",
     ],
-    "assumptions": ["the compact macro model covers object-like macros only; a file can also synthesise the name of a target "
+    "assumptions": ["the host has no Metal tool chain (Linux: MetalCompiler::find() = NotSupported): what MetalBytecode does after "
+                    "a successful lookup (running the native compiler) is modelled but never observed",
+                    "the compact macro model covers object-like macros only; a file can also synthesise the name of a target "
                     "macro with ## inside a function-like macro, which counts as testing it"],
 }
